@@ -22,11 +22,10 @@ CMD_NAMES = None
 
 
 def _cmd_names():
-    global CMD_NAMES
-    if CMD_NAMES is None:
-        from dissect.cobaltstrike.c_c2 import BeaconCommand
-        CMD_NAMES = {c.value: c.name.replace("COMMAND_", "").lower() for c in BeaconCommand}
-    return CMD_NAMES
+    """Command id -> handler-method name (on_<name>), for the commands method handlers are generated for. Pinned here (taken
+    from the documented command table), NOT read from the library's enum: the oracle must not follow a change of the names."""
+    from dst.session.sessiongen import COMMANDS
+    return COMMANDS
 
 
 def snapshot_config(bc) -> str:
@@ -933,6 +932,7 @@ class World:
                 continue
             for vname, dec in decs.items():
                 seen_checkin = False
+                last_ok = None
                 order = self._tap_order(kk, vname)
                 first = order[0] if order else 0
                 for idx in order:
@@ -1001,6 +1001,42 @@ class World:
                         self.violate("C07", "decoded_packets_differ", vname, rec.kind, _term_sig(self.cfg, rec.kind),
                                      f"decoder {vname} on {rec.kind} of client {kk}: got {_show(got)!r:.400} want {want!r:.400}")
                         break
+                    if got and rec.kind in ("get_resp", "post_req") and not req_corrupted:
+                        last_ok = (idx, http, want)
+                # the same decoder object, shown a message it has already decoded, now with other keys passed per call
+                # (documented `keys=` argument): a changed HMAC key is rejected and yields no plaintext - whatever the object
+                # has seen before - and the attempt leaves the decoder as it was
+                if last_ok is not None and vname in ("aes_hmac", "aes_rand", "rsa", "aes_hmac~delayed"):
+                    from dissect.cobaltstrike.c2 import BeaconKeys
+                    idx, http, want = last_ok
+                    aes_key, hmac_key = rc.derive_keys(st["keys"][0])
+                    bit = core.draw(self.run_seed, "wrongkey", kk, vname) % 128
+                    bad = bytearray(hmac_key)
+                    bad[bit >> 3] ^= 1 << (bit & 7)
+                    self.res.probes["used_decoder_other_keys"] += 1
+                    for label, keys in (("changed_hmac_key", BeaconKeys(aes_key, bytes(bad))), ("missing_hmac_key", BeaconKeys(aes_key, None))):
+                        try:
+                            out = list(dec.iter_recover_http(http, keys=keys))
+                            exc = None
+                        except Exception as e:  # noqa: BLE001
+                            out, exc = None, e
+                        self.res.log.log("decode_other_keys", kk, vname, idx, label, type(exc).__name__ if exc else len(out))
+                        if not isinstance(exc, ValueError):
+                            self.violate("C05", "used_decoder_accepts_other_keys", label, vname,
+                                         f"decoder {vname}, after decoding message {idx} of client {kk}, shown the same message with "
+                                         f"keys= carrying a {label.replace('_', ' ')}: "
+                                         f"{'returned ' + repr(_show(out))[:200] if exc is None else 'raised ' + repr(exc)[:200]} "
+                                         f"instead of raising ValueError")
+                            break
+                    else:
+                        try:
+                            again = list(dec.iter_recover_http(http))
+                        except Exception as e:  # noqa: BLE001
+                            again = e
+                        if isinstance(again, Exception) or not _same_packets(again, want):
+                            self.violate("C07", "decoder_changed_by_rejected_keys", vname,
+                                         f"decoder {vname} no longer decodes message {idx} of client {kk} after a call with other keys= "
+                                         f"was rejected: {again!r:.300}")
 
     def _check_shared_rsa_decoder(self):
         """ONE decoder holding only the RSA key sees the traffic of all beacons: it follows the session of the beacon that
